@@ -126,6 +126,23 @@ SUMMARY = {
     "C19-F": ("local bind loop: for-else flattened → a successfully bound socket is closed when an earlier local address failed", "local_address resolving to ≥ 2 addresses of one family, an earlier one unbindable"),
     "C20-E": ("WriteFlowControl.drain(): also waits when other waiters are queued", "≥ 2 tasks suspended at once, peer reads, first woken task sends again at once"),
     "C20-F": ("WriteFlowControl.resume_writing(): early return when nobody waits (as C04-E)", "suspended sender cancelled → peer reads → next send"),
+    # ---- round 4 (G, H; 10 properties): as round 3, plus non-default documented configurations
+    "C03-G": ("TLS _retry_ssl_method want-read clean-up: except OSError → except BaseException (a cancelled receive writes EOF into both BIOs)", "ssl= client, one receive that timed out while the peer was idle, then any later receive"),
+    "C03-H": ("_buffered_readuntil: find() loses its buflen bound (as C01-A)", "buffered protocol, an earlier longer packet, a read ending inside a frame"),
+    "C04-G": ("TLS success branch: a writer skips its own flush when another flush is in progress", "two tasks sending on one TLS transport, the first suspended by back-pressure then cancelled: the second call returned but its records never leave"),
+    "C04-H": ("asyncio adapter send_all(): writer_drain() only awaited when writing is paused (drain() is also where a lost connection is reported)", "TLS (the only user of send_all) + peer reset, then further sends: all 'succeed'"),
+    "C05-G": ("asyncio DatagramEndpoint.sendto(): failed send raised from sendto(), wake-up marker removed with get_nowait() (pops a received datagram)", "a datagram already queued + a send failing in the kernel (EMSGSIZE, ECONNREFUSED)"),
+    "C05-H": ("StringLineSerializer.serialize(): removesuffix(separator) also with keep_end=True", "keep_end=True and a packet ending with the newline sequence, one-shot mode"),
+    "C08-G": ("__flush_write_bio(): while pending → if pending (the lock owner no longer flushes what was added meanwhile)", "TLS 1.3 post-handshake client auth: a read produces cipher-text while a back-pressured writer owns the send lock"),
+    "C08-H": ("__flush_write_bio(): flusher counter decremented inside the lock block (leaks when cancelled while queued)", "writer cancelled while queued on the send lock, later a read-only phase with a post-handshake certificate request"),
+    "C12-G": ("same edit as C04-G", "see C04-G"),
+    "C14-G": ("TLS wrap() failure handler: aclose_forcefully(self) instead of (transport) — takes the 'already closing' fast path", "a handshake that fails / times out / is cancelled through wrap() directly (client with ssl=)"),
+    "C14-H": ("AsyncTCPNetworkClient.aclose(): connector cancellation moved under the send lock", "aclose() cancelled while waiting for the lock held by a send_packet() that is still connecting"),
+    "C15-G": ("asyncio adapter aclose(): closing flag only set when the transport was not already closing", "≥ 2 requests in one chunk, peer reset while the handler is on the first, handler catches ConnectionError, closes the client and yields again"),
+    "C15-H": ("same edit as C03-G", "ssl= server, an expired yielded timeout, a handler that carries on, then another request"),
+    "C16-G": ("_ClientData.pop_datagram(): lock-free fast path, slow path with acquire()/release() and no finally", "a handler timeout expiring on an empty queue, generator keeps going, the same client sends again"),
+    "C18-G": ("server_activate(): 'already bound → return' tested before 'closed → ServerClosedError'", "serve_forever() entering while server_close() is still closing the listeners"),
+    "C18-H": ("listener raw_accept(): accept-scope reset after the with block instead of in a finally", "EMFILE on accept, shutdown() during the retry pause, then a restart (EBUSY)"),
 }
 
 
